@@ -42,7 +42,7 @@ def seeds_for(prop):
     return itertools.count(base)
 
 
-def mk_cases_default(k, mode="interp", extra_args=(), port_faults=True, binary_of=None, tick_choices=None):
+def mk_cases_default(k, mode="interp", extra_args=(), port_faults=True, binary_of=None, tick_choices=None, alt_extra_args=None):
     def mk(w):
         r = random.Random(hash((w.wid, base_seed())) & 0xffffffff)
         cases = []
@@ -55,7 +55,8 @@ def mk_cases_default(k, mode="interp", extra_args=(), port_faults=True, binary_o
             tick = r.choice(tick_choices) if tick_choices else None
             # plain-access sampling period (K=1 multiplies the number of schedule steps by ~10)
             plain = r.choice([0, 0, 0, 64, 64, 8, 1])
-            cases.append(Case(w, mode, n, seed, faults, extra_args, binary=binary_of(w) if binary_of else None, tick_ns=tick,
+            xa = alt_extra_args if alt_extra_args is not None and r.random() < 0.3 else extra_args
+            cases.append(Case(w, mode, n, seed, faults, xa, binary=binary_of(w) if binary_of else None, tick_ns=tick,
                               env={"VERIF_SIM_PLAIN": str(plain)}))
         return cases
     return mk
